@@ -207,6 +207,44 @@ def lib_roundtrip(rng, res):
         shutil.rmtree(d, ignore_errors=True)
 
 
+def foreign_link_case(rng, res):
+    """A link as another tool might write it (product names that are not in normalised spelling, hash records with other
+    algorithms), stored in both formats: in-toto-match-products and the library give the same report and status for both."""
+    import hashlib, tempfile, shutil, logging
+    import in_toto.runlib as rl
+    from in_toto.models.link import Link
+    from in_toto.models.metadata import Metablock, Envelope, Metadata
+    from harness import cli
+    logging.getLogger("in_toto").setLevel(logging.CRITICAL)
+    d = tempfile.mkdtemp(prefix="verif-c14f-")
+    cwd = os.getcwd()
+    try:
+        os.chdir(d)
+        os.makedirs("src"); os.makedirs("meta")
+        open("src/a.txt", "w").write("a\n"); open("b.txt", "w").write("b\n")
+        ha, hb = hashlib.sha256(b"a\n").hexdigest(), hashlib.sha256(b"b\n").hexdigest()
+        names = rng.choice([("./b.txt", "src//a.txt"), ("b.txt", "src/./a.txt"), ("zz/../b.txt", "src/a.txt"), ("b.txt", "src/a.txt"), ("b.txt", "src\\a.txt")])
+        rec_b = rng.choice([{"sha256": hb}, {"sha256": hb, "sha512": "00" * 64}])
+        lk = Link(name="s", products={names[0]: rec_b, names[1]: {"sha256": ha}})
+        outs = {}
+        for fmt in ("traditional", "dsse"):
+            fn = os.path.join("meta", "s.%s.json" % fmt)
+            (Envelope.from_signable(lk) if fmt == "dsse" else Metablock(signed=lk)).dump(fn)
+            rep = rl.in_toto_match_products(Metadata.load(fn).get_payload(), paths=["b.txt", "src"])
+            st, out, _e = cli.run_main("in_toto_match_products", ["--link", fn, "--paths", "b.txt", "src", "-v"])
+            st2 = cli.run_main("in_toto_match_products", ["--link", fn, "--exclude", "meta"])[0]
+            outs[fmt] = {"library": [sorted(x) for x in rep], "status": st, "status_default_paths": st2, "report_lines": sorted(out.splitlines())}
+        same = outs["traditional"] == outs["dsse"]
+        case = {"op": "foreign_link", "product_names": list(names), "record_b": sorted(rec_b)}
+        res.case(dict(case, traditional=outs["traditional"]["status"], dsse=outs["dsse"]["status"]), True, same, sample_cap=1)
+        res.count("foreign_link")
+        if not same:
+            res.fail("oracle", case, {"why": "match-products gives another outcome for the DSSE copy of a link than for the traditional one", "outcomes": outs})
+    finally:
+        os.chdir(cwd)
+        shutil.rmtree(d, ignore_errors=True)
+
+
 FAMILIES = ["c02", "c05", "c06", "c07", "c08", "c16"]
 
 
@@ -217,6 +255,7 @@ def shard(seed, idx, n, tier):
         one_case(rng, res, FAMILIES[(idx + j) % len(FAMILIES)])
     for _ in range(max(1, n // 4)):
         lib_roundtrip(rng, res)
+        foreign_link_case(rng, res)
     from harness.props import c09
     for _ in range(n):
         c09.history_case(rng.randrange(1 << 40), res, "C14")
